@@ -1248,8 +1248,11 @@ func main() {
 		fmt.Fprintln(os.Stderr, "need -out")
 		os.Exit(2)
 	}
-	hdr := "From Verif Require Import Lib.Base Sched.Elect.\n"
-	wb := coqout.NewWriter(*out, hdr, "run_epoch", "out_eqb", 40)
+	hdr := "From Verif Require Import Lib.Base Sched.Elect Sched.ElectSpec.\n"
+	// per case: the model's functional result must equal the implementation's output, and
+	// the proved-sound checker impl_ok_b must accept the implementation's output
+	wb := coqout.NewWriter(*out, hdr, "fun c => (run_epoch (fst c), impl_ok_b (fst c) (snd c))",
+		"fun a b => out_eqb (fst a) (fst b) && Bool.eqb (snd a) (snd b)", 40)
 	sum := coqout.NewSummary("one evaluation = one epoch transition (real scheduler elect + EndBlock on a mock application state) of a seeded case: 1-6 entities with 0-3 nodes each (validator/compute/observer/key-manager role mixes, expired/at-expiry/frozen/suspended nodes, wrong runtime versions, TEE-capable nodes), escrow at / one below / one above the sum of the entity's claim thresholds, tie values, zero, int64-power-overflow values, 0-3 runtimes (compute/key-manager, suspended, group sizes 0-3 / backup 0-2, ValidatorSet / MaxNodes 0-2 / MinPoolSize 0-3 constraints, 1-2 deployments), MaxValidators 1-6, MinValidators 1-3, MaxValidatorsPerEntity 1-3, both power distributions, stake bypass, 1-4 successive epochs with stake/membership/param changes; non-trivial = election succeeded with >= 2 validators and at least one validator-role node was not elected; distinct = distinct (epoch input, previous set) pairs")
 	var cases []Case
 	if *replay != "" {
@@ -1301,7 +1304,8 @@ func main() {
 				// a sub-case that replays epochs 0..i
 				sub := clone(c)
 				sub.Epochs = sub.Epochs[:i+1]
-				wb.Add(fmt.Sprintf("(%s,\n  %s)", in, outputTerm(o)), map[string]any{"case": sub, "epoch_index": i})
+				ot := outputTerm(o)
+				wb.Add(fmt.Sprintf("((%s,\n  %s),\n (%s, true))", in, ot, ot), map[string]any{"case": sub, "epoch_index": i})
 				if w := oracle(c, i, o, a.tracked[i]); w != "" && viol == "" {
 					viol = fmt.Sprintf("epoch %d (index %d): %s", e.Epoch, i, w)
 				}
